@@ -105,14 +105,15 @@ CONSTANTS
  PosAsSet = {d5}
  MaxCalls = {calls}
  UnifyWrapsNull = {d6}
+ NoNullSlot = {d7}
 {tail}"""
-CHK_INV = "INVARIANT MergedIsDef\nINVARIANT LogicalCodesIntact\nINVARIANT PointerAligned\nINVARIANT NoOutOfBounds\nINVARIANT PartialIsPieceDef\nINVARIANT PiecesAreSlice\nINVARIANT LabelsAreKeys\n"
+CHK_INV = "INVARIANT MergedIsDef\nINVARIANT TransformIsDef\nINVARIANT LogicalCodesIntact\nINVARIANT PointerAligned\nINVARIANT NoOutOfBounds\nINVARIANT PartialIsPieceDef\nINVARIANT PiecesAreSlice\nINVARIANT LabelsAreKeys\n"
 ALLK7 = '{"size", "count", "sum", "sumsq", "min", "max", "first", "last"}'
 
 
 def chk_cfg(rows=2, chunks=3, kernels='{"sum", "first", "last", "size"}', masks='{"none", "slice"}', reps='{"pointers", "global"}', sorts="{TRUE, FALSE}",
             distinct="TRUE", anyorder="FALSE", dev=None, spec="Spec", tail=CHK_INV, calls=1):
-    d = {f"d{i}": "FALSE" for i in range(1, 7)}
+    d = {f"d{i}": "FALSE" for i in range(1, 8)}
     if dev:
         d[dev] = "TRUE"
     return CHK.format(spec=spec, rows=rows, chunks=chunks, kernels=kernels, masks=masks, reps=reps, sorts=sorts, distinct=distinct, anyorder=anyorder, tail=tail, calls=calls, **d)
@@ -145,7 +146,7 @@ def chunked_cases(rng, tier):
                         if lay is not None and NULL in keys:
                             continue       # (an arrow float NaN is a value, not a null: C02 / C12)
                         out.append(dict(op=op, keys=list(keys), vals=vals, emb=emb, kenc=kenc, klens=lay, T=(2 if lay is None else None),
-                                        mask=m, sort=rng.pick([0, 1]), pre=rng.pick([[], [], ["groups"]])))
+                                        mask=m, sort=rng.pick([0, 1]), pre=rng.pick([[], [], ["groups"]]), tf=int(rng.random() < 0.3)))
     for _ in range(1500 if tier == "quick" else 20000):
         n = rng.randrange(4, 10)
         keys = [rng.pick([1, 2, 3]) for _ in range(n)]
@@ -165,7 +166,7 @@ def chunked_cases(rng, tier):
         emb = rng.pick(["f64", "i64", "u8", "i32"]) if op != "size" else "f64"
         vals = [rng.pick([NULL, 1, 2, 3]) if emb == "f64" else rng.pick([1, 2, 3]) for _ in range(n)]
         out.append(dict(op=op, keys=keys, vals=vals, emb=emb, kenc=rng.pick(["f64", "i64"]), klens=lay, T=None, mask=m, sort=rng.pick([0, 1]),
-                        pre=rng.pick([[], ["groups"], ["size"]])))
+                        pre=rng.pick([[], ["groups"], ["size"]]), tf=int(rng.random() < 0.3)))
     return out
 
 
@@ -188,6 +189,7 @@ def run(tier):
     ck.mc_bg("GBChunked", chk_cfg(rows=2 if tier == "quick" else 3), "chunked_slices", workers=4)
     ck.mc_bg("GBChunked", chk_cfg(rows=2 if tier == "quick" else 3, kernels=ALLK7, masks='{"none", "bool"}', distinct="FALSE", anyorder="TRUE",
                                   chunks=3 if tier == "quick" else 2), "chunked_values_any_order", workers=4)
+    ck.mc_bg("GBChunked", chk_cfg(rows=2 if tier == "quick" else 3, chunks=2, kernels='{"sum", "first", "last", "count"}', masks='{"pos"}', distinct="FALSE"), "chunked_positions", workers=2)
     ck.mc_bg("GBChunked", chk_cfg(dev="d1"), "neg_chunked_neg_start_unclamped", expect="PointerAligned", workers=1)
     ck.mc_bg("GBChunked", chk_cfg(dev="d2"), "neg_chunked_first_chunk_ge", expect="PointerAligned", workers=1)
     ck.mc_bg("GBChunked", chk_cfg(dev="d3"), "neg_chunked_pointer_no_offset", expect="PointerAligned", workers=1)
@@ -199,6 +201,8 @@ def run(tier):
                                   distinct="FALSE", calls=2), "chunked_two_calls_with_unify", workers=4)
     ck.mc_bg("GBChunked", chk_cfg(rows=2, chunks=2, kernels='{"sum"}', masks='{"none"}', reps='{"pointers"}', sorts="{TRUE}", distinct="FALSE", calls=2, dev="d6",
                                   tail="INVARIANT LogicalCodesIntact\n"), "neg_chunked_unify_wraps_null", expect="LogicalCodesIntact", workers=1)
+    ck.mc_bg("GBChunked", chk_cfg(rows=2, chunks=2, kernels='{"sum", "max"}', masks='{"none"}', reps='{"pointers"}', sorts="{TRUE}", distinct="FALSE", dev="d7",
+                                  tail="INVARIANT TransformIsDef\n"), "neg_chunked_no_null_slot", expect="TransformIsDef", workers=1)
     rng = Rng(f"C03-{ck.seed}")
     sched.install()
     # (d) reductions over chunked keys, with the per-piece partials of hook H6
@@ -209,7 +213,7 @@ def run(tier):
                                     "rep_pointers": sum(1 for t in tcz if t.get("rep") == "pointers"), "rep_global_chunked": sum(1 for t in tcz if t.get("rep") == "global" and t.get("chunked")),
                                     "empty_leading_chunk_with_negative_start": sum(1 for t in tcz if t["klens"] and t["klens"][0] == 0 and t["mask"]["k"] == "slice" and t["mask"]["s"][0] not in (NONE,) and t["mask"]["s"][0] < -len(t["keys"]))}
     rej = ck.validate("Trace_GBChunked", tcz, chk_trace_cfg(True), "chunked", nontrivial=lambda t: len(t["klens"]) > 1,
-                      key=lambda t: json.dumps([t["kernel"], t["keys"], t["klens"], t["mask"], t["rep"]]))
+                      key=lambda t: json.dumps([t["kernel"], t["keys"], t["klens"], t["mask"], t["rep"], t["cfg"].get("tf")]))
     if rej:
         # what the public call returned decides; a partial that differs while the result is right is reported, not judged
         rej2 = ck.validate("Trace_GBChunked", rej, chk_trace_cfg(False), "chunked_api_only")
